@@ -34,7 +34,7 @@ from xsim.snapshot import Snapshot, compare, idents
 PID = "C17"
 LEVEL = "exploration"
 TIERS = {
-    "quick": {"runs": 1600, "batch": 4, "timeout_s": 600, "max_ops": 9, "faulted": 2, "shrink_budget": 80},
+    "quick": {"runs": 3200, "batch": 4, "timeout_s": 600, "max_ops": 9, "faulted": 2, "shrink_budget": 80},
     "thorough": {"runs": 40000, "batch": 8, "timeout_s": 1800, "max_ops": 14, "faulted": 6, "shrink_budget": 160},
 }
 RULE = ("History on ONE operator: (jac|hess) x function kind [plain function with explicit tensors, method of 9 "
@@ -116,8 +116,15 @@ def draw_scenario(cs, cfg):
     depth = 0
     have_prod = False
     for i in range(nops):
-        w = [7, 3 if have_prod else 0, 1 if have_prod else 0, 4 if depth < 3 else 0, 3 if depth > 0 else 0, 2]
+        w = [7, 3 if have_prod else 0, 1 if have_prod else 0, 4 if depth < 3 else 0, 3 if depth > 0 else 0, 2,
+             3 if sc["idxform"] != "int" else 0]
         o = cs.weighted(w, "op")
+        if o == 6:
+            # a product of a SIBLING operator (same jac()/hess() call, other argument): whatever is substituted into
+            # the operator under test, the sibling describes the function at its own, original tensors
+            ops.append({"op": "sibprod", "prod": ["fullmatrix", "mv", "rmv"][cs.draw(3, "sibprodkind")],
+                        "nograd": cs.bool("nograd", 1, 3), "seed": cs.draw(1000, "vseed")})
+            continue
         if o == 0:
             p = PRODS[cs.weighted([3, 3, 2, 2, 2, 1, 1, 1, 1], "prod")]
             if sc["which"] == "hess" and p.startswith("H."):
@@ -126,7 +133,9 @@ def draw_scenario(cs, cfg):
                         "r": cs.randint(1, 2, "r"), "nograd": cs.bool("nograd", 1, 5), "seed": cs.draw(1000, "vseed")})
             have_prod = True
         elif o == 1:
-            ops.append({"op": "grad1"})
+            # in one case in three the caller's backward pass does not retain the graph of the product: every later
+            # product of the same operator must still be right and differentiable
+            ops.append({"op": "grad1", "free": cs.bool("free_graph", 1, 3)})
         elif o == 2:
             ops.append({"op": "grad2"})
         elif o == 3:
@@ -220,10 +229,11 @@ def ref_call(env, level):
     return env.ref(W, b, a["x"], tuple(env.sc["oshape"]), a["c"], env.sc["k"], a["s"])
 
 
-def dense_ref(env, level):
+def dense_ref(env, level, tgt=None):
     """dense (nout x nin) Jacobian/Hessian at the currently installed values, differentiable"""
-    tgt = env.sc["target"]
+    tgt = env.sc["target"] if tgt is None else tgt
     pt = level[tgt]
+    nin = pt.numel()
 
     def fn(p):
         lv = dict(level)
@@ -233,9 +243,9 @@ def dense_ref(env, level):
     def compute():
         if env.sc["which"] == "jac":
             J = torch.autograd.functional.jacobian(fn, pt, create_graph=True)
-            return J.reshape(env.nout, env.nin)
+            return J.reshape(env.nout, nin)
         H = torch.autograd.functional.hessian(lambda p: fn(p).reshape(()), pt, create_graph=True)
-        return H.reshape(env.nin, env.nin)
+        return H.reshape(nin, nin)
     if env.refpf is None:
         return compute()
     SIM.enabled = False       # the reference's own evaluations are not events of the system under test
@@ -325,6 +335,7 @@ def execute(sc, plan, reference=None):
                         SIM.count("reach.invalid_idx_rejected")
             SIM.count("fault.invalid_op", 2 * len(bad[:2]))
         form = sc["idxform"]
+        sibs = []
         import contextlib as _cl
         try:
           with (torch.no_grad() if sc.get("construct_nograd") else _cl.nullcontext()):
@@ -337,11 +348,13 @@ def execute(sc, plan, reference=None):
                       V("idxs_none_count", "construct", "idxs=None returned %d operators, %d differentiable arguments" %
                         (len(lst), len(want)))
                   op = lst[want.index(idx)]
+                  sibs = [(o_, i_) for o_, i_ in zip(lst, want) if i_ != idx]
               else:
                   other = [i for i, p in enumerate(env.params) if isinstance(p, torch.Tensor) and p.requires_grad and i != idx]
                   seq = ([other[0]] if other else []) + [idx]
                   lst = maker(env.fcn, params=env.params, idxs=seq)
                   op = lst[-1]
+                  sibs = [(o_, i_) for o_, i_ in zip(lst, seq) if i_ != idx]
         except Exception as e:
             if not isinstance(e, InjectedFault):
                 # jac()/hess() rejected a request the statement says is valid (or returned a list that does not match)
@@ -419,6 +432,8 @@ def execute(sc, plan, reference=None):
                 info["misses"] += 1
             else:
                 info["hits"] += 1
+            if info.get("freed"):
+                SIM.count("reach.product_after_non_retaining_backward")
             J = dense_ref(env, level)
             M = J.transpose(-2, -1) if transposed else J
             if pname == "fullmatrix":
@@ -438,6 +453,27 @@ def execute(sc, plan, reference=None):
             info["judged_sub" if sub else "judged_plain"] += 1
             last = None if o["nograd"] else (res, R, current_leaves(env, level), sub)
             return [res.detach().clone()]
+        if kind == "sibprod":
+            if not sibs:
+                return None
+            sop, sidx = sibs[0]
+            stgt = env.names[sidx]
+            g = torch.Generator()
+            g.manual_seed(100 + o["seed"])
+            srows, scols = tuple(sop.shape)
+            v = None if o["prod"] == "fullmatrix" else \
+                torch.randn((scols if o["prod"] == "mv" else srows,), generator=g, dtype=AC.DT)
+            with (torch.no_grad() if o["nograd"] else torch.enable_grad()):
+                res = getattr(sop, o["prod"])(*([] if v is None else [v]))
+            J = dense_ref(env, levels[0], tgt=stgt).detach()
+            R = J if v is None else (J @ v if o["prod"] == "mv" else J.transpose(-2, -1) @ v)
+            ok, why = tclose(res.detach(), R, VTOL)
+            if not ok:
+                V("sibling_product_value", "sibprod." + o["prod"], "product of the sibling operator (argument %s) while "
+                  "%d substitution(s) are open on the operator under test: %s" % (stgt, len(ctxs), why), sub=str(bool(sub)))
+            if sub:
+                SIM.count("reach.sibling_product_under_substitution")
+            return [res.detach().clone()]
         if kind in ("grad1", "grad2"):
             if last is None:
                 return None
@@ -450,7 +486,12 @@ def execute(sc, plan, reference=None):
                 return None
             w = weights(res.shape)
             cg = kind == "grad2"
-            gx = torch.autograd.grad((res * w).sum(), leaves, allow_unused=True, retain_graph=True, create_graph=cg)
+            free = bool(o.get("free")) and not cg
+            gx = torch.autograd.grad((res * w).sum(), leaves, allow_unused=True, retain_graph=not free, create_graph=cg)
+            if free:
+                last = None            # the graph of that product is gone; the operator must not care
+                info["freed"] = True
+                SIM.count("reach.non_retaining_backward_through_a_product")
             gr = torch.autograd.grad((R * w).sum(), leaves, allow_unused=True, retain_graph=True, create_graph=cg)
             for i, (a, b) in enumerate(zip(gx, gr)):
                 ok, why = tclose(None if a is None else a.detach(), None if b is None else b.detach(), GTOL)
